@@ -7,6 +7,17 @@
 (* data" clauses of C06 and the "derived frames keep the parent's           *)
 (* registration and hold a copy" clauses of C17.                            *)
 (*                                                                         *)
+(* Since the persistence extension the module also tracks, per frame, the   *)
+(* digest of the pixel array its last recorded call left (`dig`): a call    *)
+(* that finds other pixels than that was preceded by a write through        *)
+(* ANOTHER frame -- the aliasing that C12 ("a copy is fully independent")   *)
+(* and C17 ("derived frames hold a copy") exclude, however many calls       *)
+(* later it surfaces -- and, per file path, what the last successful save   *)
+(* put there (`file`): a frame constructed from that path owes the saved     *)
+(* shape, float32 pixels, orientation and source name (compared here, as     *)
+(* exact items) and the saved axes / start time (C03; float items projected  *)
+(* by the recorder against its snapshot of the same generation).            *)
+(*                                                                         *)
 (* TLC evaluates no floats.  The recorder projects every numeric clause     *)
 (* onto a boolean (delta_ok, is_param, is_reest, value_ok, keeps); what         *)
 (* this module decides is WHICH of them a call owed, from the tracked state *)
@@ -22,33 +33,80 @@ Traces == JsonDeserialize(IOEnv.TRACE_FILE)
 
 VARIABLES tid, l, bad,
           known,    \* frame ids seen so far
-          est       \* frame id -> [zero, m, s]: the estimate the last event on that frame left
-vars == <<tid, l, bad, known, est>>
+          est,      \* frame id -> [zero, m, s]: the estimate the last event on that frame left
+          dig,      \* frame id -> digest of the pixels the last event on that frame left ("?" = not tracked)
+          file      \* path key -> [gen, sig]: number of saves so far and what the last one wrote
+vars == <<tid, l, bad, known, est, dig, file>>
 
 Evs == Traces[tid].ev
 E   == Evs[l]
 Unknown == [zero |-> FALSE, m |-> "?", s |-> "?"]
+NoSig   == [fmt |-> "?", T |-> 0, F |-> 0, asc |-> FALSE, src |-> "?", d32 |-> "?"]
 Failing(r) == {k \in DOMAIN r : ~r[k]}
 
 Init == /\ tid \in 1..Len(Traces) /\ l = 1 /\ bad = {} /\ known = {}
         /\ est = [f \in 1..Traces[tid].h.nf |-> Unknown]
+        /\ dig = [f \in 1..Traces[tid].h.nf |-> "?"]
+        /\ file = [p \in 1..Traces[tid].h.np |-> [gen |-> 0, sig |-> NoSig]]
         /\ TLCSet(tid, <<1, {}>>)
 
 Cont(f, before) == f \notin known \/ est[f] = before      \* a frame first seen mid-life (copy, unpickled, loaded) is adopted
 
-Step(checks, f, after) ==
-    IF Failing(checks) # {} THEN /\ bad' = Failing(checks) /\ UNCHANGED <<tid, l, known, est>>
-    ELSE /\ bad' = {} /\ l' = l + 1 /\ known' = known \cup {f} /\ est' = [est EXCEPT ![f] = after] /\ UNCHANGED tid
+\* judged on driver traces only (h.strict): a repository test may assign to frame.data directly between two calls
+ContD(f, before) == ~Traces[tid].h.strict \/ f \notin known \/ dig[f] = "?" \/ dig[f] = before
 
+Step(checks, f, after) ==
+    IF Failing(checks) # {} THEN /\ bad' = Failing(checks) /\ UNCHANGED <<tid, l, known, est, dig>>
+    ELSE /\ bad' = {} /\ l' = l + 1 /\ known' = known \cup {f} /\ est' = [est EXCEPT ![f] = after]
+         /\ dig' = [dig EXCEPT ![f] = E.dig1] /\ UNCHANGED tid
+
+\* A frame constructed from a whole file (how = "file") or unpickled from one (how = "pickle").  What it owes depends on
+\* what the recorded history put at that path: nothing but self-consistency for a file of unknown origin.
+Saved    == file[E.path].sig
+FromSave == E.how \in {"file", "pickle"} /\ Saved.fmt # "?" /\ ((E.how = "pickle") <=> (Saved.fmt = "pickle"))
 Create ==
     /\ l <= Len(Evs) /\ bad = {} /\ E.e = "Create"
+    /\ UNCHANGED file
     /\ Step([C11_fresh_frame_has_no_estimate |-> (E.how = "sizes") => (E.after.zero /\ E.data_zero),
              C11_degrees_of_freedom          |-> E.k_ok,
-             C05_axes_match_shape            |-> E.axes_ok], E.fid, E.after)
+             C05_axes_match_shape            |-> E.axes_ok,
+             cont_file                       |-> (E.how \in {"file", "pickle"}) => E.gen = file[E.path].gen,
+             C03_loaded_shape                |-> FromSave => (E.sig.T = Saved.T /\ E.sig.F = Saved.F),
+             C03_loaded_pixels_float32       |-> FromSave => E.sig.d32 = Saved.d32,
+             C03_loaded_orientation          |-> FromSave => E.sig.asc = Saved.asc,
+             C03_loaded_source_name          |-> FromSave => E.sig.src = Saved.src,
+             C03_loaded_axes_and_resolution  |-> FromSave => E.axes_close,
+             C03_loaded_start_time           |-> FromSave => E.tstart_close,
+             C03_helpers_report_file_axes    |-> (E.how = "file") => E.helpers_ok,
+             C12_unpickled_equals_original   |-> (FromSave /\ E.how = "pickle") => E.exact_ok], E.fid, E.after)
+
+Save ==
+    /\ l <= Len(Evs) /\ bad = {} /\ E.e = "Save"
+    /\ Step([cont_estimate            |-> Cont(E.fid, E.before),
+             C12_data_changed_only_by_own_calls |-> ContD(E.fid, E.dig0),
+             cont_file                |-> E.gen = file[E.path].gen + 1,
+             C03_save_leaves_frame    |-> E.after = E.before /\ E.dig1 = E.dig0 /\ E.axes_same /\ E.meta_same], E.fid, E.after)
+    /\ file' = IF bad' = {} THEN [file EXCEPT ![E.path] = [gen |-> E.gen, sig |-> IF E.st = "ok" THEN E.sig ELSE NoSig]] ELSE file
+
+Copy ==
+    /\ l <= Len(Evs) /\ bad = {} /\ E.e = "Copy"
+    /\ UNCHANGED file
+    /\ LET r == [cont_estimate |-> Cont(E.parent, E.before),
+                 C12_data_changed_only_by_own_calls |-> ContD(E.parent, E.dig0),
+                 C12_copy_leaves_original  |-> E.parent_same,
+                 C12_copy_equals_original  |-> E.st # "ok" \/ (E.eq.data /\ E.eq.axes /\ E.eq.est /\ E.eq.meta),
+                 C12_copy_is_independent   |-> E.own_data]
+       IN IF Failing(r) # {} THEN /\ bad' = Failing(r) /\ UNCHANGED <<tid, l, known, est, dig>>
+          ELSE /\ bad' = {} /\ l' = l + 1 /\ UNCHANGED tid
+               /\ IF E.child = 0 THEN UNCHANGED <<known, est, dig>>
+                  ELSE /\ known' = known \cup {E.child} /\ est' = [est EXCEPT ![E.child] = E.child_est]
+                       /\ dig' = [dig EXCEPT ![E.child] = E.child_dig]
 
 Noise ==
     /\ l <= Len(Evs) /\ bad = {} /\ E.e = "Noise"
+    /\ UNCHANGED file
     /\ Step([cont_estimate                   |-> Cont(E.fid, E.before),
+             C12_data_changed_only_by_own_calls |-> ContD(E.fid, E.dig0),
              C11_returned_is_delta           |-> E.st # "ok" \/ E.delta_ok,
              C11_first_noise_sets_params     |-> (E.st = "ok" /\ E.before.zero) => E.is_param,
              C11_later_noise_reestimates     |-> (E.st = "ok" /\ ~E.before.zero) => E.is_reest,
@@ -58,11 +116,14 @@ Noise ==
 
 ZeroData ==
     /\ l <= Len(Evs) /\ bad = {} /\ E.e = "ZeroData"
+    /\ UNCHANGED file
     /\ Step([C11_zero_data_resets |-> E.st # "ok" \/ (E.after.zero /\ E.data_zero /\ E.shape_ok)], E.fid, E.after)
 
 Signal ==
     /\ l <= Len(Evs) /\ bad = {} /\ E.e = "Signal"
+    /\ UNCHANGED file
     /\ Step([cont_estimate                     |-> Cont(E.fid, E.before),
+             C12_data_changed_only_by_own_calls |-> ContD(E.fid, E.dig0),
              C11_signal_leaves_estimate        |-> E.after = E.before,
              C06_returned_is_delta             |-> E.st # "ok" \/ E.delta_ok,
              C06_axes_untouched                |-> E.axes_same,
@@ -72,23 +133,28 @@ Signal ==
 
 Snr ==
     /\ l <= Len(Evs) /\ bad = {} /\ E.e = "Snr"
+    /\ UNCHANGED file
     /\ Step([cont_estimate                |-> Cont(E.fid, E.before),
+             C12_data_changed_only_by_own_calls |-> ContD(E.fid, E.dig0),
              C11_query_leaves_estimate    |-> E.after = E.before,
              C11_no_noise_no_snr          |-> E.std_zero <=> (E.st = "ValueError"),
              C11_intensity_snr_relation   |-> E.st # "ok" \/ E.value_ok], E.fid, E.after)
 
 Derive ==
     /\ l <= Len(Evs) /\ bad = {} /\ E.e = "Derive"
+    /\ UNCHANGED file
     /\ LET r == [C17_parent_untouched |-> E.parent_same,
+                 C12_data_changed_only_by_own_calls |-> ContD(E.parent, E.dig0),
                  C17_keeps_orientation |-> E.keeps.asc, C17_keeps_resolution |-> E.keeps.df /\ E.keeps.dt,
                  C17_keeps_start_time |-> E.keeps.t_start, C17_keeps_source_name |-> E.keeps.source,
                  C17_keeps_rows |-> E.keeps.rows, C17_holds_a_copy |-> E.own_data]
-       IN IF Failing(r) # {} THEN /\ bad' = Failing(r) /\ UNCHANGED <<tid, l, known, est>>
+       IN IF Failing(r) # {} THEN /\ bad' = Failing(r) /\ UNCHANGED <<tid, l, known, est, dig>>
           ELSE /\ bad' = {} /\ l' = l + 1 /\ UNCHANGED tid
-               /\ IF E.child = 0 THEN UNCHANGED <<known, est>>
-                  ELSE known' = known \cup {E.child} /\ est' = [est EXCEPT ![E.child] = E.child_est]
+               /\ IF E.child = 0 THEN UNCHANGED <<known, est, dig>>
+                  ELSE /\ known' = known \cup {E.child} /\ est' = [est EXCEPT ![E.child] = E.child_est]
+                       /\ dig' = [dig EXCEPT ![E.child] = E.child_dig]
 
-Next == Create \/ Noise \/ ZeroData \/ Signal \/ Snr \/ Derive
+Next == Create \/ Noise \/ ZeroData \/ Signal \/ Snr \/ Derive \/ Save \/ Copy
 Spec == Init /\ [][Next]_vars
 
 Progress == TLCSet(tid, IF bad # {} THEN <<l, bad>> ELSE IF TLCGet(tid)[1] < l THEN <<l, {}>> ELSE TLCGet(tid))
